@@ -21,6 +21,7 @@ REASONS = {
     71: "nested-and-flattened-configuration-observe-differently", 73: "harness-flattening-differs-from-coq-flatten",
     74: "inlined-system-differs-from-coq-flatten",
     23: "schedule-explicit-model-differs-from-master-model",
+    97: "simulation-time-is-not-initial-plus-speed-times-real-time",
     91: "disconnected-part-changes-observations",
     99: "simulation-stalled-or-raised",
 }
